@@ -101,7 +101,7 @@ Qed.
 
 Lemma lr_suffix_rel bs0 : rops_rel true (suffix_rel bs0) lr_ops lr_ops.
 Proof.
-  split; cbn [lr_ops r_ensure r_read1 r_readn r_skip r_gethandle]; unfold suffix_rel.
+  apply mk_rops_rel; cbn [lr_ops r_ensure r_read1 r_readn r_skip r_gethandle]; unfold suffix_rel.
   - intros n l1 l2 (-> & pre & ->). destruct (n <=? N.of_nat (length l2)); cbn; eauto.
   - intros l1 l2 (-> & pre & ->). destruct l2 as [|b r]; cbn; [eauto|].
     split; [reflexivity|]. split; [reflexivity|]. exists (pre ++ [b]). rewrite <- app_assoc. reflexivity.
